@@ -201,3 +201,31 @@ Theorem C15_published_in_range :
                 exists a b, reported mp votes p a /\ reported mp votes p b /\ (a <= m <= b)%Z).
 Proof. exact published_in_range. Qed.
 Print Assumptions C15_published_in_range.
+
+(** Tie to the source: FRAGMENTS cut out of the Rust source on every run by tools/rs2v.py -- the
+    zero-total test, the required-voting-power arithmetic and the [submitted >= required]
+    comparison of [validate_vote_extensions] (crates/astria-sequencer/src/app/vote_extension.rs ->
+    Kernels/KOracleVote.v) and the half/half/+1 tail of [median]
+    (crates/astria-core/src/oracles/price_feed/utils.rs -> Kernels/KOracleMedian.v; the one-line
+    forwarding methods of [Price(i128)] are pinned token by token) -- are the model's [vve_tail]
+    and the even-length branch of the model's [median].  [res_to_kernel] forgets the model's error
+    classes ([Ok a -> Some (ROk a)], [Err _ -> Some RErr], [Panic -> None]). *)
+From Astria Require Import Kernels.KernelEqOracle.
+Theorem C15_kernels_tied :
+  (forall total sub, KOracleVote.voting_power_check total sub = res_to_kernel (vve_tail total sub)) /\
+  (forall total, KOracleVote.required_voting_power total
+                 = Some (if (total * 2 <=? U64_MAX)%N then KernelLib.ROk (total * 2 / 3 + 1)%N
+                         else KernelLib.RErr)) /\
+  (forall l lower hi lo,
+     Nat.eqb (Nat.modulo (length (sortZ l)) 2) 1 = false ->
+     Nat.div (length (sortZ l)) 2 = S lower ->
+     nth_error (sortZ l) (S lower) = Some hi ->
+     nth_error (sortZ l) lower = Some lo ->
+     median l = match KOracleMedian.median_tail hi lo with
+                | Some m => Ok (Some m)
+                | None => Panic
+                end).
+Proof.
+  exact (conj keq_voting_power_check (conj keq_required_voting_power keq_median_even)).
+Qed.
+Print Assumptions C15_kernels_tied.
